@@ -74,6 +74,7 @@ type KWorld struct {
 	opsInSeg  int
 	snap      map[string]map[string]uint64 // per covered dir spelling: entry -> inode at the last quiescent point
 	snapDir   map[string]bool              // entries that were directories at the last quiescent point
+	wedged    bool                         // a deadlock was proved: nothing more can be asked of the Watcher
 	movedAway map[string]bool              // "<inode of directory>/<name>": entries renamed away since the last quiescent point
 	Findings  []engine.Finding
 	step      int
@@ -97,7 +98,38 @@ const (
 	FKCreates = "kq-creates" // Create-count invariant violated                                 (C18)
 	FKAltern  = "kq-altern"  // per-name alternation Create / Remove|Rename violated            (C18)
 	FKErrors  = "kq-errors"  // something arrived on Errors                                     (C18)
+	FKWedge   = "kq-wedge"   // the backend is provably deadlocked / its reader never exits     (C17, C18)
 )
+
+// api runs an API call (or a look at the backend's tables) under the watchdog;
+// false means it is provably blocked for good: the case ends with a finding.
+func (k *KWorld) api(what string, f func()) bool {
+	if k.wedged {
+		return false
+	}
+	if proof := kCall(what, f); proof != "" {
+		k.wedge(proof)
+		return false
+	}
+	return true
+}
+
+func (k *KWorld) wedge(proof string) {
+	k.wedged = true
+	k.find(FKWedge, "deadlock: no further event can be delivered and no descriptor released\n%s", proof)
+}
+
+// quiet waits for the backend to have handled everything raised so far.
+func (k *KWorld) quiet() bool {
+	if k.wedged {
+		return false
+	}
+	if proof := quiesce(k.col); proof != "" {
+		k.wedge(proof)
+		return false
+	}
+	return true
+}
 
 func NewKWorld(c *KCase) *KWorld {
 	root, err := os.MkdirTemp("", "kq")
@@ -120,17 +152,15 @@ func NewKWorld(c *KCase) *KWorld {
 		engine.ExitInconclusive(err.Error())
 	}
 	k.col = collect(k.w)
-	quiesce(k.col)
+	k.quiet()
 	return k
 }
 
 func (k *KWorld) Destroy() {
 	unix.Release()
-	if k.w != nil {
-		k.w.Close()
-		select {
-		case <-k.col.done:
-		case <-time.After(10 * time.Second):
+	if k.w != nil && !k.wedged {
+		if k.api("Close()", func() { k.w.Close() }) {
+			k.awaitReaderExit()
 		}
 	}
 	unix.Reset()
@@ -462,7 +492,9 @@ func (k *KWorld) Sync() {
 		unix.Release()
 		k.holding = false
 	}
-	quiesce(k.col)
+	if !k.quiet() {
+		return
+	}
 	evs, errs := k.col.take()
 	k.Events += len(evs)
 	for _, e := range errs {
@@ -574,6 +606,10 @@ func (k *KWorld) Sync() {
 
 // checkFds: descriptors, tables and user paths in step (C17).
 func (k *KWorld) checkFds() {
+	k.api("inspection of the watch tables", func() { k.checkFds0() })
+}
+
+func (k *KWorld) checkFds0() {
 	b := k.w.b.(*kqueue)
 	b.watches.mu.RLock()
 	var wds []int
@@ -680,6 +716,10 @@ const SigF13 = "kqueue: a watch added through a symlink spelling cannot be remov
 
 // RemoveAll removes every user watch and checks that nothing is left (C17).
 func (k *KWorld) RemoveAll() {
+	k.api("Remove of every listed path", func() { k.RemoveAll0() })
+}
+
+func (k *KWorld) RemoveAll0() {
 	var symlinked []string // user spellings that are symbolic links
 	for _, p := range k.w.WatchList() {
 		err := k.w.Remove(p)
@@ -702,7 +742,10 @@ func (k *KWorld) RemoveAll() {
 		return
 	}
 	k.user = nil
-	quiesce(k.col)
+	if proof := quiesce(k.col); proof != "" {
+		k.wedge(proof)
+		return
+	}
 	k.col.take()
 	b := k.w.b.(*kqueue)
 	b.watches.mu.RLock()
@@ -732,17 +775,62 @@ func (k *KWorld) RemoveAll() {
 	k.takeSnap()
 }
 
+// awaitReaderExit waits, after Close has returned, for the reader goroutine to
+// close the channels. stuck: the reader sleeps in kevent() with nothing pending
+// (nothing will ever wake it); proof: the backend is deadlocked.
+func (k *KWorld) awaitReaderExit() (stuck, proof string) {
+	const reader = "harness/kq.(*kqueue).readEvents"
+	for i := 0; ; i++ {
+		wait := 300 * time.Millisecond
+		if i > 0 {
+			wait = 3 * time.Second
+		}
+		select {
+		case <-k.col.done:
+			return "", ""
+		case <-time.After(wait):
+		}
+		if _, st, stack := engine.GoroutineState(reader); st != "" && strings.Contains(stack, "unix.Kevent") && unix.Idle() {
+			time.Sleep(300 * time.Millisecond)
+			if _, st2, stack2 := engine.GoroutineState(reader); st2 == st && strings.Contains(stack2, "unix.Kevent") && unix.Idle() {
+				select {
+				case <-k.col.done:
+					return "", ""
+				default:
+				}
+				return stack2, ""
+			}
+		}
+		if p := kWedged(); p != "" {
+			return "", p
+		}
+		if i >= 5 {
+			engine.ExitInconclusive("channels not closed after Close on the simulated kqueue")
+		}
+	}
+}
+
 // Close closes the Watcher and checks that every descriptor is gone (C17).
 func (k *KWorld) Close() {
+	k.api("Close()", func() { k.Close0() })
+}
+
+func (k *KWorld) Close0() {
 	if k.holding {
 		unix.Release()
 		k.holding = false
 	}
 	k.w.Close()
-	select {
-	case <-k.col.done:
-	case <-time.After(15 * time.Second):
-		engine.ExitInconclusive("channels not closed after Close on the simulated kqueue")
+	switch stuck, proof := k.awaitReaderExit(); {
+	case stuck != "":
+		k.wedged = true
+		k.closed = true
+		k.find(FKLeak, "Close returned but the reader goroutine sleeps in kevent() with nothing pending and nothing that will wake it: Events/Errors stay open, the kqueue, the pipe and %d watch descriptors are never released\n%s", len(unix.OpenVnodeFds()), stuck)
+		return
+	case proof != "":
+		k.closed = true
+		k.wedge(proof)
+		return
 	}
 	k.closed = true
 	// the reader closes the kqueue and the pipe right after closing the channels
@@ -762,6 +850,10 @@ func (k *KWorld) Close() {
 }
 
 func (k *KWorld) Add(p string) {
+	k.api(fmt.Sprintf("Add(%q)", p), func() { k.Add0(p) })
+}
+
+func (k *KWorld) Add0(p string) {
 	c := filepath.Clean(p)
 	id := sident(c)
 	err := k.w.Add(p)
@@ -787,6 +879,10 @@ func (k *KWorld) Add(p string) {
 // after open succeeded). Add must report an error, and the descriptor it had
 // opened must be closed again (checked by checkFds right afterwards).
 func (k *KWorld) AddFault(p string) {
+	k.api(fmt.Sprintf("Add (registration fails)(%q)", p), func() { k.AddFault0(p) })
+}
+
+func (k *KWorld) AddFault0(p string) {
 	c := filepath.Clean(p)
 	for _, u := range k.user {
 		if u.spelling == c {
@@ -826,6 +922,10 @@ func (k *KWorld) AddFault(p string) {
 }
 
 func (k *KWorld) Remove(p string) {
+	k.api(fmt.Sprintf("Remove(%q)", p), func() { k.Remove0(p) })
+}
+
+func (k *KWorld) Remove0(p string) {
 	c := filepath.Clean(p)
 	var u *kwatch
 	for _, x := range k.user {
@@ -854,7 +954,7 @@ func RunK(c *KCase) *KWorld {
 	k.takeSnap()
 	for i, s := range c.Steps {
 		k.step = i
-		if len(k.Findings) > 0 || k.closed || k.abandoned {
+		if len(k.Findings) > 0 || k.closed || k.abandoned || k.wedged {
 			break
 		}
 		switch s.K {
